@@ -65,7 +65,7 @@ def lexer_obligations(sess: rx.Session, tier: str) -> List[rx.Obligation]:
     obs: List[rx.Obligation] = []
     B = ls.BOUNDS
     # family 1: a complete literal / identifier followed by a legal delimiter is one token of its kind
-    for suffix, kind, ref, delims, bound in ls.accept_shapes():
+    for suffix, kind, ref, delims, bound in ls.accept_shapes(2 if tier == "quick" else 3):
         not_in = [ls.RESERVED] if kind == "ODATA_IDENTIFIER" else []
         if kind in ("DATE", "DATETIME"):
             # years 1000..9999 here, years 0001..0999 in their own obligations below (one finding, not ten)
@@ -93,9 +93,12 @@ def lexer_obligations(sess: rx.Session, tier: str) -> List[rx.Obligation]:
         N = B[k["bound"]]
         if kind == "GEOGRAPHY":
             N = B["str"]  # the answer does not depend on the bound: any quoted content is accepted
+        if kind == "DURATION" and tier == "quick":
+            N = 28        # converse direction with components of any length: N = 44 only in the thorough tier
         regions = OVER_REGIONS.get(kind, []) + OVER_REGIONS["*"]
         obs.append(rx.ob_overaccept(sess, f"overaccept:{kind}", "overaccept(informational)", N, kind, k["ref"], k["delims"],
                                     regions, max_rounds=rounds))
+    obs.sort(key=lambda o: -o.N)   # long bounds first: they are the expensive queries
     return obs
 
 
@@ -133,11 +136,23 @@ def spell(word: str, mask: int) -> str:
     return "".join(ch.upper() if (mask >> i) & 1 else ch.lower() for i, ch in enumerate(word))
 
 
+def same_str(want, got) -> bool:
+    """Character-wise equality.  (CrossHair 0.0.110 mis-evaluates `derived == symbolic` for slices / replace results
+    of a symbolic str - found by a non-reproducing counterexample; length + per-character comparison is exact.)"""
+    if not isinstance(got, str) or len(want) != len(got):
+        return False
+    for i in range(len(want)):
+        if want[i] != got[i]:
+            return False
+    return True
+
+
 # ---- strings: forall intended contents v: action("'" + escape(v) + "'") carries exactly v
 def v_string(v: str) -> bool:
     body = "".join("''" if ch == "'" else ch for ch in v)      # the OData spelling of v (SQUOTE-in-string)
     tok = action("STRING", "'" + body + "'")
-    return tok.type == "STRING" and type(tok.value) is _ast.String and tok.value.val == v and tok.value.py_val == v
+    return (tok.type == "STRING" and type(tok.value) is _ast.String and same_str(v, tok.value.val)
+            and same_str(v, tok.value.py_val))
 
 
 # ---- integers: positional value
@@ -153,18 +168,24 @@ def v_integer(sign: int, n: int, d0: int, d1: int, d2: int, d3: int) -> bool:
     return type(tok.value) is _ast.Integer and tok.value.val == lex and tok.value.py_val == want
 
 
-# ---- decimals / exponents: correctly rounded value of the decimal spelling
-def v_float(sign: int, a: int, frac: int, fd: int, exp: int, ecase: int, esign: int, e: int) -> bool:
-    lex = ("", "+", "-")[sign] + str(a)
-    val = Fraction(a)
-    if frac:
-        lex += "." + "0" * (frac - 1) + DIG[fd]
-        val += Fraction(fd, 10 ** frac)
-    if exp:
-        lex += "eE"[ecase] + ("", "+", "-")[esign] + str(e)
-        val *= Fraction(10) ** (-e if esign == 2 else e)
-    if not frac and not exp:
-        return True  # that is an integer literal
+# ---- decimals / exponents: correctly rounded value of the decimal spelling (parts picked from pools)
+F_POOLS = {"quick": (("0", "12"), (None, "5", "05"), (None, "2", "10")),
+           "thorough": (("0", "1", "12", "007"), (None, "0", "5", "25", "05", "125"), (None, "0", "2", "10"))}
+F_INT, F_FRAC, F_EXP = (list(x) for x in F_POOLS["quick"])
+
+
+def v_float(sign: int, ii: int, ifr: int, iex: int, ecase: int, esign: int) -> bool:
+    ip, fr, ex = F_INT[ii], F_FRAC[ifr], F_EXP[iex]
+    if fr is None and ex is None:
+        return True  # that spelling is an integer literal
+    lex = ("", "+", "-")[sign] + ip
+    val = Fraction(int(ip))
+    if fr is not None:
+        lex += "." + fr
+        val += Fraction(int(fr), 10 ** len(fr))
+    if ex is not None:
+        lex += "eE"[ecase] + ("", "+", "-")[esign] + ex
+        val *= Fraction(10) ** (-int(ex) if esign == 2 else int(ex))
     if sign == 2:
         val = -val
     tok = action("DECIMAL", lex)
@@ -186,14 +207,15 @@ def v_null(mask: int) -> bool:
 def v_ident(n: int, a: str, b: str, c: str) -> bool:
     parts = [a, b, c][:n]
     tok = action("ODATA_IDENTIFIER", ".".join(parts))
-    return (type(tok.value) is _ast.Identifier and tok.value.name == parts[-1]
-            and tok.value.namespace == tuple(parts[:-1]) and tok.value.full_name() == ".".join(parts))
-
-
-# ---- geography: prefix (any case) and quotes stripped, content untouched
-def v_geography(pmask: int, body: str) -> bool:
-    tok = action("GEOGRAPHY", spell("geography", pmask) + "'" + body + "'")
-    return type(tok.value) is _ast.Geography and tok.value.val == body and tok.value.wkt() == body
+    node = tok.value
+    if type(node) is not _ast.Identifier or not same_str(parts[-1], node.name):
+        return False
+    if type(node.namespace) is not tuple or len(node.namespace) != n - 1:
+        return False
+    for want, got in zip(parts[:-1], node.namespace):
+        if not same_str(want, got):
+            return False
+    return same_str(".".join(parts), node.full_name())
 
 
 # ---- GUID
@@ -211,16 +233,12 @@ def v_guid(case: int, n0: int, n1: int, n2: int) -> bool:
 
 
 # ---- durations
-DUR_POOL = {"quick": ("0", "3", "12"), "thorough": ("0", "1", "12", "007", "365")}
-DUR_SECS_EXTRA = ("1.5", "0.25")
-_DUR_POOL = list(DUR_POOL["quick"])
+DUR_DISTINCT = ("1", "2", "3", "4", "5", "6.5")            # one distinct value per field: swapped fields show
+DUR_VALUES = ("0", "7", "12", "007", "365")                 # per-field value pool (leading zeros included)
+DUR_SECS_EXTRA = ("1.5", "0.25", "59.999")
 
 
-def v_duration(sign: int, mask: int, iy: int, imo: int, idd: int, ih: int, imi: int, isec: int, lower: int) -> bool:
-    pool = _DUR_POOL
-    spool = pool + list(DUR_SECS_EXTRA)
-    fields = [pool[iy] if mask & 1 else None, pool[imo] if mask & 2 else None, pool[idd] if mask & 4 else None,
-              pool[ih] if mask & 8 else None, pool[imi] if mask & 16 else None, spool[isec] if mask & 32 else None]
+def _duration_ok(sign: int, fields, lower: int) -> bool:
     y, mo, dd, h, mi, sec = fields
     val = ("", "+", "-")[sign] + "P"
     for f, des in ((y, "Y"), (mo, "M"), (dd, "D")):
@@ -241,7 +259,7 @@ def v_duration(sign: int, mask: int, iy: int, imo: int, idd: int, ih: int, imi: 
     if node.unpack() != (("", "+", "-")[sign] or None, y, mo, dd, h, mi, sec):
         return False
     q = lambda f: Fraction(f) if f is not None else Fraction(0)  # noqa: E731
-    days = q(y) * Fraction(36525, 100) + q(mo) * Fraction(3044, 100) + q(dd)
+    days = q(y) * Fraction(36525, 100) + q(mo) * Fraction(3044, 100) + q(dd)     # documented 365.25 / 30.44
     secs = days * 86400 + q(h) * 3600 + q(mi) * 60 + q(sec)
     if sign == 2:
         secs = -secs
@@ -249,16 +267,39 @@ def v_duration(sign: int, mask: int, iy: int, imo: int, idd: int, ih: int, imi: 
     if type(got) is not _dt.timedelta:
         return False
     got_us = (got.days * 86400 + got.seconds) * 10 ** 6 + got.microseconds
-    return abs(got_us - secs * 10 ** 6) <= 1     # float rounding of the documented 365.25 / 30.44 products
+    return abs(got_us - secs * 10 ** 6) <= 1     # float rounding of the products, at most one microsecond
+
+
+def v_duration_mask(sign: int, mask: int, lower: int) -> bool:
+    """every present/absent combination of Y M D H M S (mask != 0), one distinct value per field."""
+    return _duration_ok(sign, [DUR_DISTINCT[i] if (mask >> i) & 1 else None for i in range(6)], lower)
+
+
+def v_duration_field(sign: int, field: int, iv: int, others: int) -> bool:
+    """one field runs through the value pool; `others`: the remaining fields are absent (0) or all present (1)."""
+    pool = DUR_VALUES + (DUR_SECS_EXTRA if field == 5 else ())
+    fields = [DUR_DISTINCT[i] if others else None for i in range(6)]
+    fields[field] = pool[iv]
+    return _duration_ok(sign, fields, 0)
+
+
+def v_duration_product(sign: int, mask: int, i0: int, i1: int, i2: int, i3: int, i4: int, i5: int) -> bool:
+    """thorough tier: full product of three values per present field."""
+    pool = ("0", "3", "12")
+    idx = (i0, i1, i2, i3, i4, i5)
+    return _duration_ok(sign, [pool[idx[i]] if (mask >> i) & 1 else None for i in range(6)], 0)
 
 
 # ---- calendar values
 YEARS = (1000, 1900, 2000, 2024, 9999)
-HOURS = (0, 9, 10, 19, 20, 23)
-MINUTES = (0, 9, 30, 59)
-SECONDS = (0, 1, 59)
+DAYS = (1, 28, 29, 30, 31)
+HOURS = (0, 12, 23)
+MINUTES = (0, 59)
+SECONDS = (0, 59)
 FRACS = (None, "1", "05", "123456", "1234567", "999999999999")
 OFFSETS = (None, "Z", "+00:00", "-00:00", "+05:30", "-23:59", "+23:59")
+DATES = ((1000, 1, 1), (2000, 2, 29), (2024, 12, 31), (9999, 12, 31))
+SECPARTS = ((0, None, None), (1, 0, None), (1, 59, None), (2, 59, "1"), (2, 0, "123456"), (2, 59, "999999999999"))
 
 
 def _days_in(y: int, m: int) -> int:
@@ -271,8 +312,8 @@ def _micro(fr):
     return 0 if fr is None else int((fr + "000000")[:6])   # Python's resolution: fractions are cut at the microsecond
 
 
-def v_date(iy: int, m: int, d: int) -> bool:
-    y = YEARS[iy]
+def v_date(iy: int, m: int, idd: int) -> bool:
+    y, d = YEARS[iy], DAYS[idd]
     if d > _days_in(y, m):
         return True   # not a calendar date: no value is demanded
     lex = f"{y:04d}-{m:02d}-{d:02d}"
@@ -287,12 +328,10 @@ def v_time(ih: int, imi: int, isec: int, ifr: int) -> bool:
     return type(tok.value) is _ast.Time and tok.value.val == lex and tok.value.py_val == _dt.time(h, mi, sec, _micro(fr))
 
 
-def v_datetime(iy: int, m: int, d: int, ih: int, imi: int, secs: int, isec: int, ifr: int, ioff: int, lower: int) -> bool:
-    y = YEARS[iy]
-    if d > _days_in(y, m):
-        return True
+def v_datetime(idate: int, ih: int, imi: int, isp: int, ioff: int, lower: int) -> bool:
+    y, m, d = DATES[idate]
     h, mi = HOURS[ih], MINUTES[imi]
-    sec, fr = (SECONDS[isec], FRACS[ifr] if secs == 2 else None) if secs else (0, None)
+    secs, sec, fr = SECPARTS[isp]
     off = OFFSETS[ioff]
     lex = f"{y:04d}-{m:02d}-{d:02d}T{h:02d}:{mi:02d}"
     if secs:
@@ -307,89 +346,109 @@ def v_datetime(iy: int, m: int, d: int, ih: int, imi: int, secs: int, isec: int,
     else:
         mins = int(off[1:3]) * 60 + int(off[4:6])
         tz = _dt.timezone(_dt.timedelta(minutes=-mins if off[0] == "-" else mins))
-    want = _dt.datetime(y, m, d, h, mi, sec, _micro(fr), tzinfo=tz)
+    want = _dt.datetime(y, m, d, h, mi, sec or 0, _micro(fr), tzinfo=tz)
     tok = action("DATETIME", lex)
     got = tok.value.py_val
     return (type(tok.value) is _ast.DateTime and tok.value.val == lex and type(got) is _dt.datetime
             and got.replace(tzinfo=None) == want.replace(tzinfo=None) and got.utcoffset() == want.utcoffset())
 
 
+GEO_SPELLINGS = ("geography", "GEOGRAPHY", "Geography", "gEoGrApHy")
+NIBBLES = (0, 9, 10, 15)
+
+
 def value_items(tier: str) -> List[Item]:
-    """One CrossHair condition per item; the split over a leading index only spreads the paths over workers."""
+    """One CrossHair condition per item.  Finite choices (digits, indexes into the value pools above, case masks) are
+    symbolic ints that CrossHair enumerates path by path and certifies exhausted; string contents are symbolic str.
+    Conditions are kept to a few dozen paths each (the leading, concrete split only spreads paths over workers)."""
     quick = tier == "quick"
-    _DUR_POOL[:] = DUR_POOL[tier]
     it: List[Item] = []
     k = 4 if quick else 5
     it.append(Item("string", "x0: str", f"len(x0) <= {k}", "v_string(x0)", family="value:string",
                    describe=f"STRING action unescapes: all intended contents of <= {k} arbitrary code points"))
-    nd = 3 if quick else 4
+    nd = 2 if quick else 3
     for sign in range(3):
         for n in range(1, nd + 1):
-            it.append(Item(f"integer_s{sign}_n{n}", "x0: int, x1: int, x2: int, x3: int",
-                           " and ".join(f"0 <= x{i} <= 9" for i in range(4)) + "".join(f" and x{i} == 0" for i in range(n, 4)),
-                           f"v_integer({sign}, {n}, x0, x1, x2, x3)", family="value:integer",
-                           describe=f"Integer.py_val: sign {('none', '+', '-')[sign]}, {n} symbolic digits (leading zeros included)"))
-    amax, emax = (3, 3) if quick else (12, 5)
+            lead = range(10) if n == 3 else [None]
+            for ld in lead:
+                pre = " and ".join(f"0 <= x{i} <= 9" for i in range(4)) + "".join(f" and x{i} == 0" for i in range(n, 4))
+                if ld is not None:
+                    pre += f" and x0 == {ld}"
+                it.append(Item(f"integer_s{sign}_n{n}" + (f"_d{ld}" if ld is not None else ""), "x0: int, x1: int, x2: int, x3: int",
+                               pre, f"v_integer({sign}, {n}, x0, x1, x2, x3)", family="value:integer",
+                               describe=f"Integer.py_val: sign {('none', '+', '-')[sign]}, {n} symbolic digits (leading zeros included)"))
+    for pool, vals in zip((F_INT, F_FRAC, F_EXP), F_POOLS[tier]):
+        pool[:] = vals
     for sign in range(3):
-        for exp in range(2):
-            it.append(Item(f"float_s{sign}_e{exp}", "x0: int, x1: int, x2: int, x3: int, x4: int, x5: int",
-                           f"0 <= x0 <= {amax} and 0 <= x1 <= 2 and 0 <= x2 <= 9 and 0 <= x3 <= 1 and 0 <= x4 <= 2 and 0 <= x5 <= {emax}"
-                           + ("" if exp else " and x3 == 0 and x4 == 0 and x5 == 0") + " and (x1 > 0 or x2 == 0)",
-                           f"v_float({sign}, x0, x1, x2, {exp}, x3, x4, x5)", family="value:float",
-                           describe="Float.py_val == correctly rounded value of int part, optional fraction digit at "
-                                    "position 1..2, optional exponent e/E with optional sign"))
-    it.append(Item("boolean", "x0: int, x1: int", "0 <= x0 <= 1 and 0 <= x1 <= 31", "v_boolean(x0, x1)", family="value:boolean",
-                   describe="Boolean.py_val for every upper/lower-case spelling of true / false"))
+        for ii in range(len(F_INT)):
+            it.append(Item(f"float_s{sign}_i{ii}", "x0: int, x1: int, x2: int, x3: int",
+                           f"0 <= x0 < {len(F_FRAC)} and 0 <= x1 < {len(F_EXP)} and 0 <= x2 <= 1 and 0 <= x3 <= 2 and "
+                           "(x1 > 0 or (x2 == 0 and x3 == 0))", f"v_float({sign}, {ii}, x0, x1, x2, x3)", family="value:float",
+                           describe=f"Float.py_val == correctly rounded value: sign {('none', '+', '-')[sign]}, int part {F_INT[ii]!r}, fraction in "
+                                    f"{F_FRAC}, exponent in {F_EXP} with e/E and optional sign"))
+    for word in range(2):
+        it.append(Item(f"boolean_{('true', 'false')[word]}", "x1: int", f"0 <= x1 <= {(15, 31)[word]}", f"v_boolean({word}, x1)",
+                       family="value:boolean", describe="Boolean.py_val for every upper/lower-case spelling"))
     it.append(Item("null", "x0: int", "0 <= x0 <= 15", "v_null(x0)", family="value:null", describe="NULL action, every case spelling"))
     nochar = " and ".join(f"'.' not in x{i}" for i in (1, 2, 3))
-    it.append(Item("identifier", "x0: int, x1: str, x2: str, x3: str",
-                   f"1 <= x0 <= 3 and len(x1) <= 2 and len(x2) <= 2 and len(x3) <= 2 and {nochar}", "v_ident(x0, x1, x2, x3)",
-                   family="value:identifier", describe="ODATA_IDENTIFIER action: up to 2 namespace parts + name, each <= 2 arbitrary non-dot characters"))
-    it.append(Item("geography", "x0: int, x1: str", "0 <= x0 <= 511 and len(x1) <= 4", "v_geography(x0, x1)",
-                   family="value:geography", describe="GEOGRAPHY action strips exactly prefix+quote and the closing quote, any prefix case"))
+    for n in (1, 2, 3):
+        it.append(Item(f"identifier_n{n}", "x1: str, x2: str, x3: str",
+                       f"len(x1) <= 2 and len(x2) <= 2 and len(x3) <= 2 and {nochar}", f"v_ident({n}, x1, x2, x3)",
+                       family="value:identifier",
+                       describe=f"ODATA_IDENTIFIER action: {n} dot-separated parts, each <= 2 arbitrary non-dot characters"))
+    for sp in range(len(GEO_SPELLINGS)):
+        it.append(Item(f"geography_p{sp}", "x1: str", "len(x1) <= 4", f"v_geography_sp({sp}, x1)",
+                       family="value:geography", describe=f"GEOGRAPHY action strips exactly {GEO_SPELLINGS[sp]}' and the closing quote"))
     for case in range(2):
-        it.append(Item(f"guid_c{case}", "x0: int, x1: int, x2: int", "0 <= x0 <= 15 and 0 <= x1 <= 15 and 0 <= x2 <= 15",
-                       f"v_guid({case}, x0, x1, x2)", family="value:guid",
-                       describe="GUID.py_val: first, middle and last hex digit symbolic, lower / upper case"))
-    np_, ns_ = len(DUR_POOL[tier]), len(DUR_POOL[tier]) + len(DUR_SECS_EXTRA)
+        for n0 in NIBBLES:
+            it.append(Item(f"guid_c{case}_{n0}", "x1: int, x2: int", "x1 in (0, 9, 10, 15) and x2 in (0, 9, 10, 15)",
+                           f"v_guid({case}, {n0}, x1, x2)", family="value:guid",
+                           describe="GUID.py_val: first, middle and last hex digit from {0,9,a,f}, lower / upper case"))
     for sign in range(3):
-        for dmask in range(8):
-            pre = (f"0 <= x0 <= 7 and 0 <= x1 < {np_} and 0 <= x2 < {np_} and 0 <= x3 < {np_} and 0 <= x4 < {np_} and "
-                   f"0 <= x5 < {np_} and 0 <= x6 < {ns_} and 0 <= x7 <= 1 and (x0 > 0 or {dmask} > 0)")
-            # absent fields are pinned to index 0 so that every spelling is one path
-            pins = []
-            for bit, var in ((1, "x1"), (2, "x2"), (4, "x3")):
-                if not dmask & bit:
-                    pins.append(f"{var} == 0")
-            pins += ["(x0 & 1 or x4 == 0)", "(x0 & 2 or x5 == 0)", "(x0 & 4 or x6 == 0)"]
-            pre += " and " + " and ".join(pins)
-            it.append(Item(f"duration_s{sign}_d{dmask}", "x0: int, x1: int, x2: int, x3: int, x4: int, x5: int, x6: int, x7: int", pre,
-                           f"v_duration({sign}, {dmask} | (x0 << 3), x1, x2, x3, x4, x5, x6, x7)", family="value:duration",
-                           describe=f"DURATION action + Duration.unpack + py_val: sign {('none', '+', '-')[sign]}, date parts mask {dmask:03b} "
-                                    f"(Y,M,D), every time-part combination, values from {DUR_POOL[tier]} (+ fractional seconds), both letter cases"))
-    for iy in range(len(YEARS)):
-        it.append(Item(f"date_y{YEARS[iy]}", "x0: int, x1: int", "1 <= x0 <= 12 and 1 <= x1 <= 31", f"v_date({iy}, x0, x1)",
-                       family="value:date", describe=f"Date.py_val for every month / day of year {YEARS[iy]}"))
+        for hi in range(4):
+            it.append(Item(f"duration_mask_s{sign}_{hi}", "x0: int, x1: int",
+                           f"0 <= x0 <= 15 and (x0 > 0 or {hi} > 0) and 0 <= x1 <= 1" + (" and x1 == 0" if sign else ""),
+                           f"v_duration_mask({sign}, x0 | ({hi} << 4), x1)", family="value:duration",
+                           describe=f"DURATION action + Duration.unpack + py_val: sign {('none', '+', '-')[sign]}, every present/absent combination "
+                                    f"of Y M D H M S with the distinct values {DUR_DISTINCT}" + ("" if sign else ", upper- and lower-case spelling")))
+        for fld in range(6):
+            nv = len(DUR_VALUES) + (len(DUR_SECS_EXTRA) if fld == 5 else 0)
+            it.append(Item(f"duration_field_s{sign}_f{fld}", "x0: int, x1: int", f"0 <= x0 < {nv} and 0 <= x1 <= 1",
+                           f"v_duration_field({sign}, {fld}, x0, x1)", family="value:duration",
+                           describe=f"duration field {'YMDHMS'[fld]} over {DUR_VALUES + (DUR_SECS_EXTRA if fld == 5 else ())}, alone and "
+                                    "with all other fields present"))
+    if not quick:
+        for sign in range(3):
+            for mask in range(1, 64):
+                pins = " and ".join(f"0 <= x{i} <= 2" + ("" if (mask >> i) & 1 else f" and x{i} == 0") for i in range(6))
+                it.append(Item(f"duration_product_s{sign}_m{mask}", ", ".join(f"x{i}: int" for i in range(6)), pins,
+                               f"v_duration_product({sign}, {mask}, x0, x1, x2, x3, x4, x5)", family="value:duration",
+                               describe=f"duration: mask {mask:06b}, full product of the values 0/3/12 per present field"))
+    years = (1, 2, 3) if quick else range(len(YEARS))
+    for iy in years:
+        for half in range(2):
+            it.append(Item(f"date_y{YEARS[iy]}_{half}", "x0: int, x1: int",
+                           f"{1 + 6 * half} <= x0 <= {6 + 6 * half} and 0 <= x1 < {len(DAYS)}", f"v_date({iy}, x0, x1)",
+                           family="value:date", describe=f"Date.py_val year {YEARS[iy]}, months {1 + 6 * half}..{6 + 6 * half}, days {DAYS}"))
     for ih in range(len(HOURS)):
         it.append(Item(f"time_h{HOURS[ih]}", "x0: int, x1: int, x2: int",
                        f"0 <= x0 < {len(MINUTES)} and 0 <= x1 < {len(SECONDS)} and 0 <= x2 < {len(FRACS)}", f"v_time({ih}, x0, x1, x2)",
                        family="value:time", describe=f"Time.py_val hour {HOURS[ih]:02d} x minutes {MINUTES} x seconds {SECONDS} x fractions {FRACS}"))
-    # date-time: the date part on boundary days, the time part on boundary values, every optional-part combination
-    days = "(x1 == 1 or x1 == 28 or x1 == 29 or x1 == 31)" if quick else "1 <= x1 <= 31"
-    months = "(x0 == 1 or x0 == 2 or x0 == 12)" if quick else "1 <= x0 <= 12"
+    # date-time (i) field boundaries with offset Z; (ii) every optional-part combination x offsets x letter case
+    for idate in range(len(DATES)):
+        it.append(Item(f"datetime_fields_{idate}", "x0: int, x1: int, x2: int",
+                       f"0 <= x0 < {len(HOURS)} and 0 <= x1 < {len(MINUTES)} and 0 <= x2 <= 2", f"v_datetime({idate}, x0, x1, x2, 1, 0)",
+                       family="value:datetime", describe=f"DateTime.py_val date {DATES[idate]}, hours {HOURS}, minutes {MINUTES}, seconds absent/00/59, Z"))
     for ioff in range(len(OFFSETS)):
-        for secs in range(3):
-            pre = (f"{months} and {days} and 0 <= x2 < {len(YEARS)} and (x3 == 0 or x3 == {len(HOURS) - 1}) and "
-                   f"(x4 == 0 or x4 == {len(MINUTES) - 1}) and 0 <= x5 <= 1 and x2 in (0, 3, 4)")
-            pre += (f" and 0 <= x6 < {len(SECONDS)}" if secs else " and x6 == 0")
-            pre += (f" and 0 <= x7 < {len(FRACS)} and x7 > 0" if secs == 2 else " and x7 == 0")
-            if quick:
-                pre += " and (x6 != 1) and (x7 in (0, 1, 4))"
-            it.append(Item(f"datetime_o{ioff}_s{secs}", "x0: int, x1: int, x2: int, x3: int, x4: int, x5: int, x6: int, x7: int", pre,
-                           f"v_datetime(x2, x0, x1, x3, x4, {secs}, x6, x7, {ioff}, x5)", family="value:datetime",
-                           describe=f"DateTime.py_val: offset {OFFSETS[ioff]}, seconds part {('absent', 'ss', 'ss.f')[secs]}, boundary dates/times, "
-                                    "upper- and lower-case T/Z"))
+        it.append(Item(f"datetime_parts_o{ioff}", "x0: int, x1: int", f"0 <= x0 < {len(SECPARTS)} and 0 <= x1 <= 1",
+                       f"v_datetime(1, 1, 1, x0, {ioff}, x1)", family="value:datetime",
+                       describe=f"DateTime.py_val offset {OFFSETS[ioff]}: seconds absent / ss / ss.f (1, 6, 12 digits), upper- and lower-case T/Z"))
     return it
+
+
+def v_geography_sp(sp: int, body: str) -> bool:
+    tok = action("GEOGRAPHY", GEO_SPELLINGS[sp] + "'" + body + "'")
+    return type(tok.value) is _ast.Geography and same_str(body, tok.value.val) and same_str(body, tok.value.wkt())
 
 
 VALUE_HEADER = "from verif.props.c06 import *  # noqa\n"
@@ -424,15 +483,67 @@ def run_values(run: Run, tier: str, progress: bool) -> None:
 
 
 
+class SubRun:
+    """Run `fn(sub_run)` in a forked process and merge its obligations into `run` on join().
+
+    Used to let the CrossHair part (its own worker processes) overlap with the z3 part.  VIOLATION / KNOWN-FINDING
+    lines and replay files are produced by the child exactly as in-process; only the bookkeeping is merged."""
+
+    def __init__(self, run: Run, fn):
+        import multiprocessing as mp
+        self.run = run
+        ctx = mp.get_context("fork")
+        self.pc, cc = ctx.Pipe(duplex=False)
+
+        def child():
+            sub = Run(run.pid, run.level, run.tier, run.seed)
+            try:
+                fn(sub)
+            except BaseException as e:  # noqa: BLE001
+                import traceback
+                sub.harness_error("engine-b-subprocess", "harness", "".join(traceback.format_exception_only(type(e), e)))
+            cc.send({"obls": sub.obls, "known_hit": sub.known_hit, "nontrivial": sorted(sub._nontrivial), "notes": sub.notes,
+                     "encoded": sub.functions_encoded, "extra": sub.extra, "violations": sub._violations,
+                     "samples": sub.samples, "solver_s": sub.solver_s})
+            cc.close()
+
+        self.p = ctx.Process(target=child)
+        self.p.start()
+        cc.close()
+
+    def join(self) -> None:
+        run = self.run
+        try:
+            d = self.pc.recv()
+        except EOFError:
+            run.harness_error("engine-b-subprocess", "harness", "the CrossHair sub-process died")
+            self.p.join()
+            return
+        self.p.join()
+        run.obls.extend(d["obls"])
+        run.known_hit.update(d["known_hit"])
+        run._nontrivial.update(d["nontrivial"])
+        run.notes.extend(d["notes"])
+        run.encode(*d["encoded"])
+        for k_, v_ in d["extra"].items():
+            run.extra.setdefault(k_, v_)
+        run._violations += d["violations"]
+        run.solver_s += d["solver_s"]
+        for smp in d["samples"]:
+            run.sample(smp)
+
+
 def main() -> int:
     run = Run(PID, "model_checking")
     tier = run.tier
     progress = bool(os.environ.get("VERIF_PROGRESS"))
+    values = SubRun(run, lambda sub: run_values(sub, tier, progress))
     try:
-        sess = rx.Session(run, sorted(set(ls.BOUNDS.values())), reference_patterns())
+        sess = rx.Session(run, sorted(set(ls.BOUNDS.values()) | ({28} if tier == "quick" else set())), reference_patterns())
     except rx.NotEncodable as e:
         print(f"[{PID}] the current lexer cannot be encoded: {e}", flush=True)
         run.inconclusive("encode-lexer", "encode", f"not encodable: {e}")
+        values.join()
         run.finish()
         return 2
     sess.fill(run)
@@ -441,4 +552,5 @@ def main() -> int:
     sess.validate(run, str(REPO / "tests"), 400 if tier == "quick" else 4000)
     obs = lexer_obligations(sess, tier)
     sess.drive(obs, timeout=60 if tier == "quick" else 300, progress=progress)
+    values.join()
     return run.finish()
